@@ -127,3 +127,32 @@ impl<'a> Obs for &'a usize {
         Seen { key: **self, addr: *self as *const usize as usize, valid: true, is_clone: false }
     }
 }
+
+/// element that owns a heap block of its own (a leaked element leaks memory): used by the C15 suite
+#[derive(Debug)]
+pub struct BElem {
+    key: u32,
+    magic: u32,
+    heap: Box<u64>,
+}
+impl BElem {
+    pub fn new(pos: usize) -> Self {
+        BElem { key: key_of(pos) as u32, magic: MAGIC, heap: Box::new(pos as u64) }
+    }
+}
+impl Drop for BElem {
+    fn drop(&mut self) {
+        let (key, magic) = (self.key as usize, self.magic);
+        let _ = LEDGER.try_with(|l| match (pos_of(key), magic) {
+            (Some(p), MAGIC) => bump(&l.dropped[p]),
+            (Some(p), MAGIC_CLONE) => bump(&l.clone_dropped[p]),
+            _ => l.garbage.set(l.garbage.get() + 1),
+        });
+        self.magic = 0xdead_dead;
+    }
+}
+impl Obs for BElem {
+    fn seen(&self) -> Seen {
+        Seen { key: self.key as usize, addr: 0, valid: self.magic == MAGIC && pos_of(self.key as usize) == Some(*self.heap as usize), is_clone: false }
+    }
+}
